@@ -72,7 +72,21 @@ func goEnv() []string {
 }
 
 func simDir() string { return filepath.Join(verifDir, "sim") }
-func binDir() string { return filepath.Join(verifDir, "sim", "bin") }
+func binDir() string {
+	if d := os.Getenv("VERIF_BINDIR"); d != "" {
+		return d // development only: lets a seeded change be checked in a scratch worktree
+	}
+	return filepath.Join(verifDir, "sim", "bin")
+}
+
+// repoDir is /repo; VERIF_REPO (development only, never set by a registered
+// command) points the build at a scratch worktree holding a seeded change.
+func repoDir() string {
+	if d := os.Getenv("VERIF_REPO"); d != "" {
+		return d
+	}
+	return "/repo"
+}
 
 // build compiles the scenario test binary from /repo's current working tree
 // with -tags verif. The sources are first copied to a scratch directory outside
@@ -95,7 +109,7 @@ func build(race bool) error {
 		}
 		return nil
 	}
-	src := "/repo/proxy/src"
+	src := repoDir() + "/proxy/src"
 	os.MkdirAll(filepath.Join(scratch, "services"), 0o755)
 	for _, d := range []string{"libs", "services/lunar-engine", "services/aggregation-output-plugin"} {
 		if err := run("/", "cp", "-a", filepath.Join(src, d), filepath.Join(scratch, d)); err != nil {
@@ -135,10 +149,10 @@ func writeGoSum(dst string) {
 	var lines []string
 	srcs := []string{
 		filepath.Join(simDir(), "go.sum"),
-		"/repo/proxy/src/services/lunar-engine/go.sum",
-		"/repo/proxy/src/services/aggregation-output-plugin/go.sum",
-		"/repo/proxy/src/libs/toolkit-core/go.sum",
-		"/repo/proxy/src/libs/shared-model/go.sum",
+		repoDir() + "/proxy/src/services/lunar-engine/go.sum",
+		repoDir() + "/proxy/src/services/aggregation-output-plugin/go.sum",
+		repoDir() + "/proxy/src/libs/toolkit-core/go.sum",
+		repoDir() + "/proxy/src/libs/shared-model/go.sum",
 	}
 	for _, p := range srcs {
 		b, err := os.ReadFile(p)
